@@ -13,7 +13,7 @@
 From Kit Require Import C13.Model_FifoMutex C13.Model_FifoMap C13.Model_CMap C13.Model_Ctx
   C13.Model_Outer C13.Spec C13.Check
   C13.Proofs_Fifo C13.Proofs_FifoMap C13.Proofs_Ctx C13.Proofs_CMap C13.Proofs_Refuted C13.Proofs_Outer
-  C13.Proofs_Oracle.
+  C13.Proofs_Outer2 C13.Proofs_Oracle.
 
 (* ---------------------------------- fifo.Mutex ---------------------------------------- *)
 
@@ -239,6 +239,34 @@ Theorem C13_outer_grace : forall s s' n, ostep s (OGrace n) = Some s' ->
   exists r a, nth_error (recs s) n = Some r /\ r_at r = Some a /\ (a + grace s <= now s)%Z.
 Proof. exact outer_grace. Qed.
 Print Assumptions C13_outer_grace.
+
+(* CAUSE.  [r_cause] is context.Cause of the reader's context (None while it is live).  In every
+   reachable state: the context is live iff it has no cause; it carries the parent's cause only
+   if the parent context has ended; and a reader that was cancelled by rcancel - its own release,
+   a writer after the grace period, or shutdown - while its parent is still live carries the
+   CONFIGURED cause. *)
+Theorem C13_outer_cause : forall g es s n r, orun (oinit g) es = Some s -> nth_error (recs s) n = Some r ->
+  (r_cause r = None <-> rctx_done s r = false) /\
+  (r_cause r = Some CParent -> cdn s (r_ctx r) = true) /\
+  (r_done r = true -> cdn s (r_ctx r) = false -> r_cause r = Some CConfigured).
+Proof. exact outer_cause. Qed.
+Print Assumptions C13_outer_cause.
+
+(* INDEX FRESH.  Whenever Run is about to register a reader, no entry of rcancels has the index
+   rcancelx it is going to use (so `rcancels[i] = ...` never overwrites a live entry and the
+   model's delete-before-insert is the identity) - also after a writer reset rcancelx to 0,
+   because wg.Wait() emptied the map before any new registration. *)
+Theorem C13_outer_index_fresh : forall g es s t c, orun (oinit g) es = Some s ->
+  runpc s = RunReg (HR t c) ->
+  (forall i n, In (i, n) (rcs s) -> i <> rcx s) /\ del_idx (rcx s) (rcs s) = rcs s.
+Proof. exact outer_index_fresh. Qed.
+Print Assumptions C13_outer_index_fresh.
+
+(* ... and every entry of rcancels is a live (not done) record carrying that index. *)
+Theorem C13_outer_rcancels_live : forall g es s i n, orun (oinit g) es = Some s -> In (i, n) (rcs s) ->
+  exists r, nth_error (recs s) n = Some r /\ r_idx r = i /\ r_done r = false.
+Proof. exact outer_rcancels_live. Qed.
+Print Assumptions C13_outer_rcancels_live.
 
 (* ---------------------------------- oracles ------------------------------------------- *)
 
